@@ -40,12 +40,12 @@ DataInSeq(n, final) ==
   /\ IF final \/ len + 1 = W
      THEN /\ stored' = stored + len + 1 /\ len' = 0 /\ acked' = base + 1 /\ retry' = 0
           /\ pc' = IF final THEN "done" ELSE pc
-     ELSE /\ len' = len + 1 /\ UNCHANGED <<stored, acked, retry, pc>>
+     ELSE /\ len' = len + 1 /\ retry' = 0 /\ UNCHANGED <<stored, acked, pc>>
 
 DataOutOfSeq(n) ==
   /\ pc = "run" /\ n >= 0 /\ n < M /\ n # (base + 1) % M
-  /\ stored' = stored + len /\ len' = 0 /\ acked' = base
-  /\ UNCHANGED <<pc, base, retry>>
+  /\ stored' = stored + len /\ len' = 0 /\ acked' = base /\ retry' = 0
+  /\ UNCHANGED <<pc, base>>
 
 Fail ==
   /\ pc = "run" /\ retry' = retry + 1
